@@ -153,7 +153,7 @@ for _k, _v in FUZZ.items():
 
 # Quick tier: a few tens of seconds per property on 8 of the 16 cores (every change); counts are cases.
 QUICK = {'C01': 48000, 'C02': 100000, 'C03': 160000, 'C04': 240000, 'C05': 40000, 'C06': 80000, 'C07': 40000, 'C08': 32000,
-         'C09': 32000, 'C10': 2000, 'C11': 1200, 'C12': 48000, 'C13': 40000, 'C14': 80000, 'C15': 24000, 'C16': 80000,
+         'C09': 32000, 'C10': 2000, 'C11': 1200, 'C12': 48000, 'C13': 40000, 'C14': 80000, 'C15': 24000, 'C16': 240000,
          'C17': 80000, 'C18': 40000, 'C19': 24000, 'C20': 32000}
 for _k, _v in QUICK.items():
     CONFIG[_k]["quick"]["checks"] = _v
